@@ -7,11 +7,11 @@ open Coset
 
 /-- what "appending `s` and raising the fuel keeps the result" means for each parser function. -/
 def AppendOK (fuel : Nat) : Prop :=
-  (∀ d bs v r, parse fuel d bs = .ok (v, r) → ∀ s f', fuel ≤ f' → parse f' d (bs ++ s) = .ok (v, r ++ s)) ∧
-  (∀ d n bs xs r, parseN fuel d n bs = .ok (xs, r) → ∀ s f', fuel ≤ f' → parseN f' d n (bs ++ s) = .ok (xs, r ++ s)) ∧
-  (∀ d bs xs r, parseIndef fuel d bs = .ok (xs, r) → ∀ s f', fuel ≤ f' → parseIndef f' d (bs ++ s) = .ok (xs, r ++ s)) ∧
-  (∀ d n bs xs r, parsePairsN fuel d n bs = .ok (xs, r) → ∀ s f', fuel ≤ f' → parsePairsN f' d n (bs ++ s) = .ok (xs, r ++ s)) ∧
-  (∀ d bs xs r, parsePairsIndef fuel d bs = .ok (xs, r) → ∀ s f', fuel ≤ f' → parsePairsIndef f' d (bs ++ s) = .ok (xs, r ++ s)) ∧
+  (∀ d bs v r, parse fuel d bs = .ok (v, r) → ∀ s f' d', fuel ≤ f' → d ≤ d' → parse f' d' (bs ++ s) = .ok (v, r ++ s)) ∧
+  (∀ d n bs xs r, parseN fuel d n bs = .ok (xs, r) → ∀ s f' d', fuel ≤ f' → d ≤ d' → parseN f' d' n (bs ++ s) = .ok (xs, r ++ s)) ∧
+  (∀ d bs xs r, parseIndef fuel d bs = .ok (xs, r) → ∀ s f' d', fuel ≤ f' → d ≤ d' → parseIndef f' d' (bs ++ s) = .ok (xs, r ++ s)) ∧
+  (∀ d n bs xs r, parsePairsN fuel d n bs = .ok (xs, r) → ∀ s f' d', fuel ≤ f' → d ≤ d' → parsePairsN f' d' n (bs ++ s) = .ok (xs, r ++ s)) ∧
+  (∀ d bs xs r, parsePairsIndef fuel d bs = .ok (xs, r) → ∀ s f' d', fuel ≤ f' → d ≤ d' → parsePairsIndef f' d' (bs ++ s) = .ok (xs, r ++ s)) ∧
   (∀ t k bs acc b r, chunks fuel t k bs acc = .ok (b, r) → ∀ s f', fuel ≤ f' → chunks f' t k (bs ++ s) acc = .ok (b, r ++ s))
 
 theorem chunks_append (fuel : Nat)
@@ -73,8 +73,8 @@ namespace Coset.Cbor
 open Coset
 
 theorem parseN_append (fuel : Nat) (ih : AppendOK fuel) :
-    ∀ d n bs xs r, parseN (fuel + 1) d n bs = .ok (xs, r) → ∀ s f', fuel + 1 ≤ f' → parseN f' d n (bs ++ s) = .ok (xs, r ++ s) := by
-  intro d n bs xs r h s f' hle
+    ∀ d n bs xs r, parseN (fuel + 1) d n bs = .ok (xs, r) → ∀ s f' d', fuel + 1 ≤ f' → d ≤ d' → parseN f' d' n (bs ++ s) = .ok (xs, r ++ s) := by
+  intro d n bs xs r h s f' d' hle hdd
   obtain ⟨f, rfl⟩ : ∃ f, f' = f + 1 := ⟨f' - 1, by omega⟩
   cases n with
   | zero => simp [parseN] at h ⊢; obtain ⟨rfl, rfl⟩ := h; simp
@@ -86,7 +86,7 @@ theorem parseN_append (fuel : Nat) (ih : AppendOK fuel) :
     | ok p =>
       obtain ⟨v, r1⟩ := p
       simp only [h1] at h
-      rw [ih.1 _ _ _ _ h1 s f (by omega)]
+      rw [ih.1 _ _ _ _ h1 s f d' (by omega) hdd]
       simp only []
       cases h2 : parseN fuel d n r1 with
       | err => simp [h2] at h
@@ -94,12 +94,12 @@ theorem parseN_append (fuel : Nat) (ih : AppendOK fuel) :
       | ok q =>
         obtain ⟨ys, r2⟩ := q
         simp only [h2] at h
-        rw [ih.2.1 _ _ _ _ _ h2 s f (by omega)]
+        rw [ih.2.1 _ _ _ _ _ h2 s f d' (by omega) hdd]
         simp at h ⊢; obtain ⟨rfl, rfl⟩ := h; simp
 
 theorem parsePairsN_append (fuel : Nat) (ih : AppendOK fuel) :
-    ∀ d n bs xs r, parsePairsN (fuel + 1) d n bs = .ok (xs, r) → ∀ s f', fuel + 1 ≤ f' → parsePairsN f' d n (bs ++ s) = .ok (xs, r ++ s) := by
-  intro d n bs xs r h s f' hle
+    ∀ d n bs xs r, parsePairsN (fuel + 1) d n bs = .ok (xs, r) → ∀ s f' d', fuel + 1 ≤ f' → d ≤ d' → parsePairsN f' d' n (bs ++ s) = .ok (xs, r ++ s) := by
+  intro d n bs xs r h s f' d' hle hdd
   obtain ⟨f, rfl⟩ : ∃ f, f' = f + 1 := ⟨f' - 1, by omega⟩
   cases n with
   | zero => simp [parsePairsN] at h ⊢; obtain ⟨rfl, rfl⟩ := h; simp
@@ -111,7 +111,7 @@ theorem parsePairsN_append (fuel : Nat) (ih : AppendOK fuel) :
     | ok p =>
       obtain ⟨k, r1⟩ := p
       simp only [h1] at h
-      rw [ih.1 _ _ _ _ h1 s f (by omega)]
+      rw [ih.1 _ _ _ _ h1 s f d' (by omega) hdd]
       simp only []
       cases h2 : parse fuel d r1 with
       | err => simp [h2] at h
@@ -119,7 +119,7 @@ theorem parsePairsN_append (fuel : Nat) (ih : AppendOK fuel) :
       | ok p2 =>
         obtain ⟨v, r2⟩ := p2
         simp only [h2] at h
-        rw [ih.1 _ _ _ _ h2 s f (by omega)]
+        rw [ih.1 _ _ _ _ h2 s f d' (by omega) hdd]
         simp only []
         cases h3 : parsePairsN fuel d n r2 with
         | err => simp [h3] at h
@@ -127,7 +127,7 @@ theorem parsePairsN_append (fuel : Nat) (ih : AppendOK fuel) :
         | ok q =>
           obtain ⟨ys, r3⟩ := q
           simp only [h3] at h
-          rw [ih.2.2.2.1 _ _ _ _ _ h3 s f (by omega)]
+          rw [ih.2.2.2.1 _ _ _ _ _ h3 s f d' (by omega) hdd]
           simp at h ⊢; obtain ⟨rfl, rfl⟩ := h; simp
 
 /-- `pull` succeeds on the input of a successful `parse`. -/
@@ -151,8 +151,8 @@ theorem head_append (bs s : Bytes) (h : bs ≠ []) : (bs ++ s).head? = bs.head? 
   | cons b t => rfl
 
 theorem parseIndef_append (fuel : Nat) (ih : AppendOK fuel) :
-    ∀ d bs xs r, parseIndef (fuel + 1) d bs = .ok (xs, r) → ∀ s f', fuel + 1 ≤ f' → parseIndef f' d (bs ++ s) = .ok (xs, r ++ s) := by
-  intro d bs xs r h s f' hle
+    ∀ d bs xs r, parseIndef (fuel + 1) d bs = .ok (xs, r) → ∀ s f' d', fuel + 1 ≤ f' → d ≤ d' → parseIndef f' d' (bs ++ s) = .ok (xs, r ++ s) := by
+  intro d bs xs r h s f' d' hle hdd
   obtain ⟨f, rfl⟩ : ∃ f, f' = f + 1 := ⟨f' - 1, by omega⟩
   rw [parseIndef] at h ⊢
   by_cases hb : bs.head? = some 0xff
@@ -174,7 +174,7 @@ theorem parseIndef_append (fuel : Nat) (ih : AppendOK fuel) :
       rw [head_append bs s hne]
       simp only [hb, if_false]
       simp only [h1] at h
-      rw [ih.1 _ _ _ _ h1 s f (by omega)]
+      rw [ih.1 _ _ _ _ h1 s f d' (by omega) hdd]
       simp only []
       cases h2 : parseIndef fuel d r1 with
       | err => simp [h2] at h
@@ -182,12 +182,12 @@ theorem parseIndef_append (fuel : Nat) (ih : AppendOK fuel) :
       | ok q =>
         obtain ⟨ys, r2⟩ := q
         simp only [h2] at h
-        rw [ih.2.2.1 _ _ _ _ h2 s f (by omega)]
+        rw [ih.2.2.1 _ _ _ _ h2 s f d' (by omega) hdd]
         simp at h ⊢; obtain ⟨rfl, rfl⟩ := h; simp
 
 theorem parsePairsIndef_append (fuel : Nat) (ih : AppendOK fuel) :
-    ∀ d bs xs r, parsePairsIndef (fuel + 1) d bs = .ok (xs, r) → ∀ s f', fuel + 1 ≤ f' → parsePairsIndef f' d (bs ++ s) = .ok (xs, r ++ s) := by
-  intro d bs xs r h s f' hle
+    ∀ d bs xs r, parsePairsIndef (fuel + 1) d bs = .ok (xs, r) → ∀ s f' d', fuel + 1 ≤ f' → d ≤ d' → parsePairsIndef f' d' (bs ++ s) = .ok (xs, r ++ s) := by
+  intro d bs xs r h s f' d' hle hdd
   obtain ⟨f, rfl⟩ : ∃ f, f' = f + 1 := ⟨f' - 1, by omega⟩
   rw [parsePairsIndef] at h ⊢
   by_cases hb : bs.head? = some 0xff
@@ -209,7 +209,7 @@ theorem parsePairsIndef_append (fuel : Nat) (ih : AppendOK fuel) :
       rw [head_append bs s hne]
       simp only [hb, if_false]
       simp only [h1] at h
-      rw [ih.1 _ _ _ _ h1 s f (by omega)]
+      rw [ih.1 _ _ _ _ h1 s f d' (by omega) hdd]
       simp only []
       cases h2 : parse fuel d r1 with
       | err => simp [h2] at h
@@ -217,7 +217,7 @@ theorem parsePairsIndef_append (fuel : Nat) (ih : AppendOK fuel) :
       | ok p2 =>
         obtain ⟨v, r2⟩ := p2
         simp only [h2] at h
-        rw [ih.1 _ _ _ _ h2 s f (by omega)]
+        rw [ih.1 _ _ _ _ h2 s f d' (by omega) hdd]
         simp only []
         cases h3 : parsePairsIndef fuel d r2 with
         | err => simp [h3] at h
@@ -225,7 +225,7 @@ theorem parsePairsIndef_append (fuel : Nat) (ih : AppendOK fuel) :
         | ok q =>
           obtain ⟨ys, r3⟩ := q
           simp only [h3] at h
-          rw [ih.2.2.2.2.1 _ _ _ _ h3 s f (by omega)]
+          rw [ih.2.2.2.2.1 _ _ _ _ h3 s f d' (by omega) hdd]
           simp at h ⊢; obtain ⟨rfl, rfl⟩ := h; simp
 
 end Coset.Cbor
@@ -234,8 +234,8 @@ namespace Coset.Cbor
 open Coset
 
 theorem parse_append_step (fuel : Nat) (ih : AppendOK fuel) :
-    ∀ d bs v r, parse (fuel + 1) d bs = .ok (v, r) → ∀ s f', fuel + 1 ≤ f' → parse f' d (bs ++ s) = .ok (v, r ++ s) := by
-  intro d bs v r h s f' hle
+    ∀ d bs v r, parse (fuel + 1) d bs = .ok (v, r) → ∀ s f' d', fuel + 1 ≤ f' → d ≤ d' → parse f' d' (bs ++ s) = .ok (v, r ++ s) := by
+  intro d bs v r h s f' d' hle hdd
   obtain ⟨f, rfl⟩ : ∃ f, f' = f + 1 := ⟨f' - 1, by omega⟩
   have hf : fuel ≤ f := by omega
   rw [parse] at h ⊢
@@ -305,27 +305,31 @@ theorem parse_append_step (fuel : Nat) (ih : AppendOK fuel) :
         simp only [] at h ⊢
         by_cases hd0 : d = 0
         · simp [hd0] at h
-        · simp only [hd0, if_false] at h ⊢
+        · have hd0' : d' ≠ 0 := by omega
+          simp only [hd0, if_false] at h
+          simp only [hd0', if_false]
           cases hc : parseN fuel (d - 1) n rest with
           | err => simp [hc] at h
           | oof => simp [hc] at h
           | ok q =>
             obtain ⟨xs, r1⟩ := q
             simp only [hc] at h
-            rw [ih.2.1 _ _ _ _ _ hc s f hf]
+            rw [ih.2.1 _ _ _ _ _ hc s f (d' - 1) hf (by omega)]
             simp at h ⊢; obtain ⟨rfl, rfl⟩ := h; simp
       | none =>
         simp only [] at h ⊢
         by_cases hd0 : d = 0
         · simp [hd0] at h
-        · simp only [hd0, if_false] at h ⊢
+        · have hd0' : d' ≠ 0 := by omega
+          simp only [hd0, if_false] at h
+          simp only [hd0', if_false]
           cases hc : parseIndef fuel (d - 1) rest with
           | err => simp [hc] at h
           | oof => simp [hc] at h
           | ok q =>
             obtain ⟨xs, r1⟩ := q
             simp only [hc] at h
-            rw [ih.2.2.1 _ _ _ _ hc s f hf]
+            rw [ih.2.2.1 _ _ _ _ hc s f (d' - 1) hf (by omega)]
             simp at h ⊢; obtain ⟨rfl, rfl⟩ := h; simp
     | map len =>
       cases len with
@@ -333,27 +337,31 @@ theorem parse_append_step (fuel : Nat) (ih : AppendOK fuel) :
         simp only [] at h ⊢
         by_cases hd0 : d = 0
         · simp [hd0] at h
-        · simp only [hd0, if_false] at h ⊢
+        · have hd0' : d' ≠ 0 := by omega
+          simp only [hd0, if_false] at h
+          simp only [hd0', if_false]
           cases hc : parsePairsN fuel (d - 1) n rest with
           | err => simp [hc] at h
           | oof => simp [hc] at h
           | ok q =>
             obtain ⟨xs, r1⟩ := q
             simp only [hc] at h
-            rw [ih.2.2.2.1 _ _ _ _ _ hc s f hf]
+            rw [ih.2.2.2.1 _ _ _ _ _ hc s f (d' - 1) hf (by omega)]
             simp at h ⊢; obtain ⟨rfl, rfl⟩ := h; simp
       | none =>
         simp only [] at h ⊢
         by_cases hd0 : d = 0
         · simp [hd0] at h
-        · simp only [hd0, if_false] at h ⊢
+        · have hd0' : d' ≠ 0 := by omega
+          simp only [hd0, if_false] at h
+          simp only [hd0', if_false]
           cases hc : parsePairsIndef fuel (d - 1) rest with
           | err => simp [hc] at h
           | oof => simp [hc] at h
           | ok q =>
             obtain ⟨xs, r1⟩ := q
             simp only [hc] at h
-            rw [ih.2.2.2.2.1 _ _ _ _ hc s f hf]
+            rw [ih.2.2.2.2.1 _ _ _ _ hc s f (d' - 1) hf (by omega)]
             simp at h ⊢; obtain ⟨rfl, rfl⟩ := h; simp
     | tag t =>
       simp only [] at h ⊢
@@ -396,8 +404,9 @@ theorem parse_append_step (fuel : Nat) (ih : AppendOK fuel) :
                 exact smallBytesPeek_append_none _ s _ _ hp2 hpk
               · simp [h23]
             rw [hpk']
-            simp only [hd0, if_false]
-            rw [ih.1 _ _ _ _ hc s f hf]
+            have hd0' : d' ≠ 0 := by omega
+            simp only [hd0', if_false]
+            rw [ih.1 _ _ _ _ hc s f (d' - 1) hf (by omega)]
             simp at h ⊢; obtain ⟨rfl, rfl⟩ := h; simp
 
 theorem appendOK : ∀ fuel, AppendOK fuel := by
@@ -416,13 +425,13 @@ theorem appendOK : ∀ fuel, AppendOK fuel := by
            parsePairsIndef_append fuel ih, chunks_append fuel ih.2.2.2.2.2⟩
 
 /-- L3: what follows a parsed item does not influence it; more fuel does not change it. -/
-theorem parse_append (fuel f' d : Nat) (bs s : Bytes) (v : Value) (r : Bytes)
-    (h : parse fuel d bs = .ok (v, r)) (hf : fuel ≤ f') : parse f' d (bs ++ s) = .ok (v, r ++ s) :=
-  (appendOK fuel).1 d bs v r h s f' hf
+theorem parse_append (fuel f' d d' : Nat) (bs s : Bytes) (v : Value) (r : Bytes)
+    (h : parse fuel d bs = .ok (v, r)) (hf : fuel ≤ f') (hd : d ≤ d') : parse f' d' (bs ++ s) = .ok (v, r ++ s) :=
+  (appendOK fuel).1 d bs v r h s f' d' hf hd
 
 theorem fromReader_append (bs s : Bytes) (v : Value) (r : Bytes) (h : fromReader bs = .ok (v, r)) :
     fromReader (bs ++ s) = .ok (v, r ++ s) := by
   unfold fromReader at h ⊢
-  exact parse_append _ _ _ _ _ _ _ h (by unfold fuelFor; simp only [List.length_append]; omega)
+  exact parse_append _ _ _ _ _ _ _ _ h (by unfold fuelFor; simp only [List.length_append]; omega) (Nat.le_refl _)
 
 end Coset.Cbor
